@@ -33,6 +33,13 @@ KeyTods == {<<0, 0>>, <<0, 1>>, <<43199, 999999999>>, <<43200, 0>>, <<86399, 0>>
 KeyOffs == {0, 1, -1, 3600, -3600, 19800, -12600, 86399, -86399}
 KeyCounts == {W(0), W(1), W(2), W(24), W(60), W(1000), W(86400), W(6000000), W(2147483647), TwoTo31, U32Max}
 
+\* counts whose product with the unit is the last below / first at or above 2^32 seconds, 2^63 and 2^64 nanoseconds:
+\* where an implementation that narrows an intermediate to 32 or 64 bits starts to wrap
+WrapCounts(u) == CASE u = "day" -> {W(49710), W(49711), W(106751), W(106752), W(213503), W(213504)}
+                   [] u = "hour" -> {W(1193046), W(1193047), W(2562047), W(2562048), W(5124095), W(5124096), W(5124119), W(5124120)}
+                   [] u = "minute" -> {W(71582788), W(71582789), W(153722867), W(153722868), W(307445734), W(307445735), W(307447174)}
+                   [] OTHER -> {}
+
 Case(e, a, b) == [x \in DOMAIN e \cup {"a", "b", "exp"} |->
                     IF x = "a" THEN a ELSE IF x = "b" THEN b ELSE IF x = "exp" THEN SetToSeq(Allowed(e, a, b)) ELSE e[x]]
 
@@ -49,7 +56,7 @@ C04(z) ==
   LET dts == {Dt(d, t[1], t[2], 0) : d \in KeyDays, t \in KeyTods} \cup {Dt(0, 0, 0, 3600), Dt(-1, 86399, 999999999, -3600)}
   IN UNION {
       {Case([op |-> op, u |-> u, n |-> n], a, a) :
-          n \in KeyCounts \cup EdgeCounts(InstOf(a), u, IF op = "dt_add" THEN 1 ELSE -1)} :
+          n \in KeyCounts \cup WrapCounts(u) \cup EdgeCounts(InstOf(a), u, IF op = "dt_add" THEN 1 ELSE -1)} :
         a \in dts, u \in Units, op \in {"dt_add", "dt_sub"}}
      \cup UNION {
       {Case([op |-> op, n |-> n], DateV(d), DateV(d)) :
@@ -111,10 +118,17 @@ MidnightCounts(t, u, sign) ==
   LET dist == IF sign > 0 THEN Sub(DayNs, TodWide(t)) ELSE TodWide(t)
       n == FloorDivSeq(dist, UnitRadices(u), 1)
   IN {x \in {n, Add(n, W(1)), Sub(n, W(1))} : ~x.neg /\ Cmp(x, U32Max) <= 0}
+NanosProbes == {W(0), W(1), Sub(DayNs, W(1)), DayNs, Add(DayNs, W(1)), MulSmall(DayNs, 2),
+                    FromDigits(<<1, 8, 4, 4, 6, 7, 4, 4, 0, 7, 3, 7, 0, 9, 5, 5, 1, 6, 1, 5>>),
+                    \* 2^32 seconds and 2^32 / 2^33 nanoseconds plus a little: out of the day, but small again once narrowed to 32 bits
+                    FromDigits(<<4, 2, 9, 4, 9, 6, 7, 2, 9, 6, 0, 0, 0, 0, 0, 0, 0, 0, 0>>),
+                    FromDigits(<<4, 2, 9, 4, 9, 6, 7, 2, 9, 6, 0, 0, 0, 0, 0, 0, 0, 0, 5>>),
+                    FromDigits(<<1, 2, 8, 8, 4, 9, 0, 1, 8, 8, 8, 0, 0, 0, 0, 4, 3, 2, 0, 0>>),
+                    FromDigits(<<8, 6, 4, 0, 4, 2, 9, 4, 9, 6, 7, 2, 9, 6>>), FromDigits(<<1, 7, 2, 8, 0, 0, 0, 0, 0, 0, 0, 0, 0, 0, 0>>)}
 C08(z) ==
   LET ts == {Tm(t[1], t[2], o) : t \in KeyTods \cup {<<86399, 999999000>>, <<82800, 0>>, <<1, 0>>}, o \in {0, 3600, -86399}}
   IN UNION {{Case([op |-> op, u |-> u, n |-> n], a, a) :
-               n \in KeyCounts \cup MidnightCounts(TodOf(a), u, IF op = "time_add" THEN 1 ELSE -1)} :
+               n \in KeyCounts \cup WrapCounts(u) \cup MidnightCounts(TodOf(a), u, IF op = "time_add" THEN 1 ELSE -1)} :
              a \in ts, op \in {"time_add", "time_sub"}, u \in Units \ {"day"}}
      \cup {Case([op |-> op], a, Tm(b[1], b[2], 0)) : a \in ts, b \in KeyTods, op \in {"time_add_time", "time_sub_time"}}
      \cup {Case([op |-> op, secs |-> s, ns |-> n], a, a) : a \in ts, op \in {"time_add_dur", "time_sub_dur"},
@@ -123,8 +137,7 @@ C08(z) ==
      \cup {Case([op |-> "time_from_dt"], Dt(d, t[1], t[2], o), Dt(0, 0, 0, 0)) : d \in {-2, -1, 0, 1, MinDn + 1, UnixEpochDn}, t \in KeyTods, o \in {0, 3600}}
      \cup {Case([op |-> "time_from_seconds", s |-> s], DateV(0), DateV(0)) : s \in {W(0), W(1), W(86399), W(86400), W(86401), TwoTo31, U32Max}}
      \cup {Case([op |-> "time_from_nanos", n |-> n], DateV(0), DateV(0)) :
-             n \in {W(0), W(1), Sub(DayNs, W(1)), DayNs, Add(DayNs, W(1)), MulSmall(DayNs, 2),
-                    FromDigits(<<1, 8, 4, 4, 6, 7, 4, 4, 0, 7, 3, 7, 0, 9, 5, 5, 1, 6, 1, 5>>)}}
+             n \in NanosProbes}
      \cup {Case([op |-> "time_from_hms", h |-> W(h), mi |-> W(m), s |-> W(s)], DateV(0), DateV(0)) :
              h \in {0, 1, 23, 24}, m \in {0, 59, 60}, s \in {0, 59, 60}}
      \cup {Case([op |-> "time_cmp"], Tm(a[1], a[2], 0), Tm(b[1], b[2], 3600)) : a \in KeyTods, b \in KeyTods}
@@ -162,6 +175,7 @@ C01(z) ==
   LET vals == OffVals(LocalDates, CalTods, CalOffs)
   IN UNION {{Case([op |-> "dt_set", f |-> f, v |-> v], a, a) : v \in SetValues(f)} : a \in vals, f \in {"year", "month", "day"}}
      \cup {Case([op |-> "dt_get"], a, a) : a \in vals}
+     \cup {Case([op |-> "dt_as_ymdhms"], a, a) : a \in vals \cup {Dt(d, t[1], t[2], 0) : d \in {-1, -366, -146097, 0, 1, Ymd2Dn(-401, 2, 29)}, t \in CalTods}}
 C02(z) ==
   LET vals == OffVals(YearEdgeDates \cup {<<2024, 2, 29>>, <<2023, 2, 28>>}, CalTods, CalOffs)
   IN {Case([op |-> "dt_set", f |-> "doy", v |-> v], a, a) : a \in vals, v \in SetValues("doy")}
@@ -208,7 +222,7 @@ C10(z) ==
      \cup {Case([op |-> "dt_get"], DtV(i, o), DtV(i, o)) : i \in insts, o \in offs \ {86400, -86400}}
      \cup {Case([op |-> "dt_as_ymdhms"], DtV(i, o), DtV(i, o)) : i \in insts, o \in offs \ {86400, -86400}}
      \cup {Case([op |-> "dt_fmt_get"], DtV(i, o), DtV(i, o)) : i \in insts, o \in offs \ {86400, -86400}}
-     \cup {Case([op |-> "time_get"], Tm(t[1], t[2], o), Tm(0, 0, 0)) : t \in KeyTods, o \in offs \ {86400, -86400}}
+     \cup {Case([op |-> op], Tm(t[1], t[2], o), Tm(0, 0, 0)) : op \in {"time_get", "time_fmt_get"}, t \in KeyTods, o \in offs \ {86400, -86400}}
      \cup {Case([op |-> "off_from_seconds", s |-> s], DateV(0), DateV(0)) :
              s \in {W(o) : o \in offs} \cup {W(86401), W(-86401), W(2147483647), Neg(TwoTo31), W(-2147483647)}}
      \cup {Case([op |-> "off_from_hms", h |-> W(h), mi |-> W(m), s |-> W(s)], DateV(0), DateV(0)) :
@@ -230,6 +244,8 @@ C15(z) ==
      \cup {Case([op |-> "dt_from_ymdhms", y |-> y, m |-> m, d |-> d, h |-> h, mi |-> mi, s |-> s], DateV(0), DateV(0)) :
              y \in {W(-5879611), W(0), W(2024), W(5879611)}, m \in {W(0), W(2), W(6), W(7), W(13)}, d \in {W(0), W(12), W(13), W(22), W(23), W(29), W(30)},
              h \in {W(0), W(23), W(24)}, mi \in {W(59), W(60)}, s \in {W(59), W(60)}}
+     \cup {Case([op |-> "time_from_nanos", n |-> n], DateV(0), DateV(0)) : n \in NanosProbes}
+     \cup {Case([op |-> "time_from_seconds", s |-> x], DateV(0), DateV(0)) : x \in {W(0), W(86399), W(86400), TwoTo31, U32Max}}
      \* setters on receivers in the two partial months at the ends of the range, with and without an offset
      \cup EdgeSetCases
      \cup (IF First THEN UNION {{Case([op |-> "date_set", f |-> f, v |-> v], DateV(d), DateV(0)) : v \in EdgeSetValues(f)} :
@@ -244,7 +260,8 @@ C05(z) ==
   LET lo == IF Thorough THEN Ymd2Dn(-9, 1, 1) ELSE Ymd2Dn(-3, 1, 1)
       hi == IF Thorough THEN Ymd2Dn(9, 12, 31) ELSE Ymd2Dn(3, 12, 31)
       counts == IF Thorough THEN (0..25) \cup {47, 48, 49, 120} ELSE {0, 1, 2, 3, 11, 12, 13, 14, 24, 25, 37, 48, 120}
-      ends == {MinDn, MinDn + 8, MinDn + 200, MaxDn, MaxDn - 11, MaxDn - 200}
+      \* incl. receivers one month away from the two partial months (23-30 June of the first year, 1-12 July of the last)
+      ends == {MinDn, MinDn + 8, MinDn + 30, MinDn + 38, MinDn + 200, MinDn + 372, MaxDn, MaxDn - 11, MaxDn - 30, MaxDn - 41, MaxDn - 200, MaxDn - 366}
       ops == {"add_months", "sub_months", "add_years", "sub_years"}
       mine == {d \in lo..hi : InShard(d)}
   IN {Case([op |-> "date_" \o op, n |-> W(n)], DateV(d), DateV(d)) : d \in mine, n \in counts, op \in ops}
